@@ -2,7 +2,7 @@ import CalVerif.Prim.Wire
 import CalVerif.Model.De
 /-! Driver for C09.
 
-    `de <range> <cfg> <shape> <n> <sched> <std>`
+    `[hist] de <range> <cfg> <shape> <n> <sched> <std>`
         range  = `E` | `sr,sc,h,w/<cell>,<cell>,…` (row-major)
         cell   = `I:<i64>` `F:<16 hex>` `S:<utf8 hex|->` `B:0|1` `D:<16 hex>` `DI:<hex>` `DU:<hex>` `E:<kind>` `_`
         cfg    = `N` | `A` | `C` | `C/<hex>/<hex>…`
@@ -164,7 +164,7 @@ def runDe (std : Std) (r : Range.Rng Data) (cfg : Headers) (sh : Shape) (n : Nat
     " | ".intercalate ("ok" :: showHint st0 :: go n st0 [])
 
 def handle (line : String) : String :=
-  match Wire.words line with
+  match (match Wire.words line with | "hist" :: rest => rest | ws => ws) with
   | ["de", rg, cfg, sh, n, sched, std] =>
     (match parseRange rg, parseCfg cfg, n.toNat?, (sched.splitOn ",").mapM parseTarget, parseStd std with
      | some r, some c, some n, some sc, some t =>
